@@ -83,18 +83,18 @@ def isNameB (alpha alnum : Char → Bool) : List Char → Bool
 
 /-- `Parser::name` reads exactly `nm` when `nm` is a letter followed by alphanumerics and what
 follows does not start with an alphanumeric -/
-theorem name_of_isName (cc : CharClass) (nm : List Char) (t : Char) (tail : List Char)
-    (hn : isNameB cc.alpha cc.alnum nm = true) (ht : cc.alnum t = false) :
-    name cc (nm ++ t :: tail) = (nm, t :: tail) := by
+theorem name_of_isName (cc : CharClass) (P : Profile) (nm : List Char) (t : Char) (tail : List Char)
+    (hn : isNameB cc.alpha (nameChar cc P) nm = true) (ht : nameChar cc P t = false) :
+    name cc P (nm ++ t :: tail) = (nm, t :: tail) := by
   cases nm with
   | nil => simp [isNameB] at hn
   | cons a rest =>
     simp only [isNameB, Bool.and_eq_true] at hn
     simp only [List.cons_append, name, hn.1, if_true]
-    have h1 : List.takeWhile cc.alnum (rest ++ t :: tail) = rest := by
+    have h1 : List.takeWhile (nameChar cc P) (rest ++ t :: tail) = rest := by
       rw [List.takeWhile_append_of_pos (by simpa using hn.2)]
       simp [List.takeWhile, ht]
-    have h2 : List.dropWhile cc.alnum (rest ++ t :: tail) = t :: tail := by
+    have h2 : List.dropWhile (nameChar cc P) (rest ++ t :: tail) = t :: tail := by
       rw [List.dropWhile_append_of_pos (by simpa using hn.2)]
       simp [List.dropWhile, ht]
     rw [h1, h2]
@@ -118,6 +118,27 @@ theorem isNameB_ascii (cc : CharClass) (hcc : CCAscii cc) (nm : List Char)
     rw [(hcc a hascii.1).1]
     rw [all_alnum_ascii cc hcc rest hascii.2]
 
+
+/-- a name in the old sense (letter, then alphanumerics) is a name when `_` is accepted too -/
+theorem isNameB_nameChar (cc : CharClass) (P : Profile) (nm : List Char)
+    (h : isNameB cc.alpha cc.alnum nm = true) : isNameB cc.alpha (nameChar cc P) nm = true := by
+  cases nm with
+  | nil => simp [isNameB] at h
+  | cons a rest =>
+    simp only [isNameB, Bool.and_eq_true, List.all_eq_true] at h ⊢
+    exact ⟨h.1, fun x hx => by simp [nameChar, h.2 x hx]⟩
+
+/-- `thread_id` is a name once `_` is accepted (repair of F5) -/
+theorem isNameB_thread_id (cc : CharClass) (hcc : CCAscii cc) (P : Profile) (hus : P.underscoreNames = true) :
+    isNameB cc.alpha (nameChar cc P) cs!"thread_id" = true := by
+  have ha : ∀ c : Char, c.toNat < 128 → asciiAlnum c = true → nameChar cc P c = true := by
+    intro c hc h; simp [nameChar, (hcc c hc).2, h]
+  have hal : cc.alpha 't' = true := by rw [(hcc 't' (by decide)).1]; decide
+  simp only [isNameB, hal, Bool.true_and, List.all_cons, List.all_nil, Bool.and_true, Bool.and_eq_true]
+  refine ⟨ha _ (by decide) (by decide), ha _ (by decide) (by decide), ha _ (by decide) (by decide),
+    ha _ (by decide) (by decide), ha _ (by decide) (by decide), ?_, ha _ (by decide) (by decide),
+    ha _ (by decide) (by decide)⟩
+  simp [nameChar, hus]
 
 /-! ### format specs -/
 
@@ -414,7 +435,7 @@ theorem cc_syntax (cc : CharClass) (hcc : CCAscii cc) :
 theorem next_formatter (cc : CharClass) (P : Profile) (nm tail : List Char) (args : List (List Piece))
     (spec : Option FormatSpec) (rest : List Char)
     (hhead : doubled '{' (nm ++ tail) = none)
-    (hname : name cc (nm ++ tail) = (nm, tail))
+    (hname : name cc P (nm ++ tail) = (nm, tail))
     (hargs : argsL cc P tail [] = .ok args (showSpec spec ++ '}' :: rest))
     (hspec : wfSpec P.wordBits spec = true) :
     next cc P ('{' :: (nm ++ tail)) = .ok (some (.arg nm args (paramsOf spec))) rest := by
@@ -425,13 +446,14 @@ theorem next_formatter (cc : CharClass) (P : Profile) (nm tail : List Char) (arg
 /-- a named formatter: `nm` is a letter followed by alphanumerics, the tail starts with `:`, `}` or `(` -/
 theorem next_named (cc : CharClass) (hcc : CCAscii cc) (P : Profile) (nm : List Char) (t : Char)
     (tl : List Char) (args : List (List Piece)) (spec : Option FormatSpec) (rest : List Char)
-    (hnm : isNameB cc.alpha cc.alnum nm = true) (ht : t = ':' ∨ t = '}' ∨ t = '(')
+    (hnm : isNameB cc.alpha (nameChar cc P) nm = true) (ht : t = ':' ∨ t = '}' ∨ t = '(')
     (hargs : argsL cc P (t :: tl) [] = .ok args (showSpec spec ++ '}' :: rest))
     (hspec : wfSpec P.wordBits spec = true) :
     next cc P ('{' :: (nm ++ t :: tl)) = .ok (some (.arg nm args (paramsOf spec))) rest := by
   obtain ⟨h1, h2, h3, _, h5, _⟩ := cc_syntax cc hcc
-  have htn : cc.alnum t = false := by rcases ht with h | h | h <;> subst h <;> assumption
-  apply next_formatter cc P nm (t :: tl) args spec rest _ (name_of_isName cc nm t tl hnm htn) hargs hspec
+  have htn : nameChar cc P t = false := by
+    rcases ht with h | h | h <;> subst h <;> simp [nameChar, h1, h2, h3]
+  apply next_formatter cc P nm (t :: tl) args spec rest _ (name_of_isName cc P nm t tl hnm htn) hargs hspec
   cases nm with
   | nil => simp [isNameB] at hnm
   | cons a r =>
@@ -465,24 +487,24 @@ theorem argsL_arg (cc : CharClass) (P : Profile) (body tail : List Char) (acc : 
     argsL cc P ('(' :: (body ++ ')' :: tail)) acc = argsL cc P tail (acc ++ [a]) :=
   argsL_open cc P _ acc a tail hb
 
-theorem isName_leaf (cc : CharClass) (hcc : CCAscii cc) (k : LeafKind) (long : Bool)
-    (h : (k == .threadId && long) = false) : isNameB cc.alpha cc.alnum (leafName k long) = true := by
+theorem isName_leaf (cc : CharClass) (hcc : CCAscii cc) (P : Profile) (hus : P.underscoreNames = true)
+    (k : LeafKind) (long : Bool) : isNameB cc.alpha (nameChar cc P) (leafName k long) = true := by
   cases k <;> cases long <;> first
-    | (simp at h; done)
-    | (rw [isNameB_ascii cc hcc _ (by decide)]; decide)
+    | (exact isNameB_thread_id cc hcc P hus)
+    | (apply isNameB_nameChar; rw [isNameB_ascii cc hcc _ (by decide)]; decide)
 
-theorem isName_date (cc : CharClass) (hcc : CCAscii cc) (long : Bool) :
-    isNameB cc.alpha cc.alnum (dateName long) = true := by
-  cases long <;> (rw [isNameB_ascii cc hcc _ (by decide)]; decide)
+theorem isName_date (cc : CharClass) (hcc : CCAscii cc) (P : Profile) (long : Bool) :
+    isNameB cc.alpha (nameChar cc P) (dateName long) = true := by
+  cases long <;> (apply isNameB_nameChar; rw [isNameB_ascii cc hcc _ (by decide)]; decide)
 
-theorem isName_mdc (cc : CharClass) (hcc : CCAscii cc) (long : Bool) :
-    isNameB cc.alpha cc.alnum (mdcName long) = true := by
-  cases long <;> (rw [isNameB_ascii cc hcc _ (by decide)]; decide)
+theorem isName_mdc (cc : CharClass) (hcc : CCAscii cc) (P : Profile) (long : Bool) :
+    isNameB cc.alpha (nameChar cc P) (mdcName long) = true := by
+  cases long <;> (apply isNameB_nameChar; rw [isNameB_ascii cc hcc _ (by decide)]; decide)
 
-theorem isName_group (cc : CharClass) (hcc : CCAscii cc) (k : GroupKind) (long : Bool) (hk : k ≠ .align) :
-    isNameB cc.alpha cc.alnum (groupName k long) = true := by
+theorem isName_group (cc : CharClass) (hcc : CCAscii cc) (P : Profile) (k : GroupKind) (long : Bool)
+    (hk : k ≠ .align) : isNameB cc.alpha (nameChar cc P) (groupName k long) = true := by
   cases k <;> cases long <;> first
     | (exact absurd rfl hk)
-    | (rw [isNameB_ascii cc hcc _ (by decide)]; decide)
+    | (apply isNameB_nameChar; rw [isNameB_ascii cc hcc _ (by decide)]; decide)
 
 end Log4rs.Pattern.Parse
